@@ -439,7 +439,7 @@ def main(ctx):
         for prev in ("none", "same-1", "same-2", "other-more", "other-same"):
             for nb in ((2,) if ctx.quick else (2, 3)):
                 for p in range(parts):
-                    cells.append({"kind": "json", "cfg": cfg, "prev": prev, "new_batches": nb + ci, "part": (p, parts), "stride": 64 if ctx.quick else 16})
+                    cells.append({"kind": "json", "cfg": cfg, "prev": prev, "new_batches": nb + ci, "part": (p, parts), "stride": 64 if ctx.quick else 1, "dense_limit": 4096 if ctx.quick else 10**9})
         for prev in ("same-1", "other-more"):
             cells.append({"kind": "json-exception", "cfg": cfg, "prev": prev, "new_batches": 2})
         cells.append({"kind": "sqlite", "cfg": cfg, "old_batches": 1, "new_batches": 2})
